@@ -109,9 +109,9 @@ Qed.
 (* a literal *)
 Lemma literal_sim lex k s st t :
   Rt s st -> literal lex k s = SOk t ->
-  exists st', decode_literal lex k st = Ok (st', t) /\ Rt s st' /\ dframe st st'.
+  exists st', decode_literal Generic lex k st = Ok (st', t) /\ Rt s st' /\ dframe st st'.
 Proof.
-  intros HR. unfold literal, decode_literal. destruct k as [|tg|d].
+  intros HR. unfold literal, decode_literal. cbn [mk_literal bind]. destruct k as [|tg|d].
   - intros H; inversion H; subst. eexists; split; [reflexivity|]. split; [assumption|dfr].
   - destruct (is_nil tg); [discriminate|]. intros H; inversion H; subst. eexists; split; [reflexivity|]. split; [assumption|dfr].
   - destruct (d =? 0) eqn:Ed; [discriminate|].
